@@ -107,6 +107,8 @@ def r2_r3(ctx, F):
                     ctx.ok(rule, '%s:no-combo' % mode, '%sScoreState has no max_combo field (nothing to clamp)' % CAP[mode])
                 continue
             v = prov.project_field(st, sfield)
+            # free helper functions (`util::clamp_combo(combo, max_combo, misses)`) are read through
+            v = prov.inline_all(F, v, depth=2, _seen=(f.path,), only=lambda f_: not f_.get('impl_adt') and not f_.get('trait') and '{closure' not in (f_.get('path') or ''))
             e = combin.expand(F, v)
             o = combin.unclamped_occurrences(e, src_pred(src))
             if rule == 'C12-R2':
@@ -194,9 +196,11 @@ def r4(ctx, F):
     ctx.floor('C12-R4', n, 4, 'ScoreState conversion pairs')
 
 
-def written_slots(v):
+def written_slots(v, F=None):
     """for a value `param#1 with {slot: Some{0: x}}` return {slot: x}"""
     out = {}
+    if F is not None:
+        v = prov.resolve_mut(F, prov.strip(v, through_mut=False))        # writes done by a private `&mut self` helper
     v = prov.strip(v, through_mut=True)
     while v[0] == 'mut':
         v = v[1]
@@ -234,7 +238,7 @@ def r5(ctx, F):
                 n = len(gen.blocks[r]['s'])
                 sv = P.local(1, r, n)
                 for alt in (sv[1] if sv[0] == 'phi' else [sv]):
-                    wb.update(written_slots(alt))
+                    wb.update(written_slots(alt, F))
             for f in fields:
                 fv = prov.strip(prov.project_field(st, f))
                 fvs = [fv] + ([prov.strip(a) for a in fv[1]] if fv[0] == 'phi' else [])
@@ -244,7 +248,7 @@ def r5(ctx, F):
         # map defined by state(s)
         sv = prov.prov_of(st_fn).return_value()
         st_map = {}
-        for g, x in written_slots(sv).items():
+        for g, x in written_slots(sv, F).items():
             pp = as_param_path(x)
             if pp is not None and pp[0] == 2 and len(pp[1]) == 1:
                 st_map[pp[1][0]] = g
@@ -270,7 +274,7 @@ def r5(ctx, F):
                 ctx.violation('C12-R5', '%s:setter:%s' % (mode, f), 'no setter %sPerformance::%s (anchor-missing)' % (CAP[mode], sname))
                 continue
             ctx.saw(setter)
-            ws = written_slots(prov.prov_of(setter).return_value())
+            ws = written_slots(prov.prov_of(setter).return_value(), F)
             hit = [g for g, x in ws.items() if as_param_path(x) == (2, ())]
             ctx.require(hit == [g2] and len(ws) == 1, 'C12-R5', '%s:setter:%s' % (mode, f),
                         '%sPerformance::%s(n) writes slot `%s` only' % (CAP[mode], sname, g2), setter.where(),
